@@ -440,6 +440,8 @@ RES_SMILES = ['[CH2-]C=C[CH2+]', '[O-]C=CC=[NH2+]', '[O-]C=C[CH2+]', '[CH2]C=C[C
               '[O-]C=C[S+]=C', 'CC(C)=[S+]C=C(C)[O-]', 'C[N-]C=C[S+]=CC', '[CH2-]C=C[S+]=C', '[O-]C=CC=C[S+]=C', 'CN(C)C=C[S+]=C', 'NC=C[S+]=C', '[O-]C=CC=[S+]C',
               '[O-]C=C[Se+]=C', '[S-]C=C[S+]=C', '[O-]C=C[S+]=C.[O-]C=C[CH2+]', '[O-]C=C[O+](C)C', '[S-]C=C[O+](C)C', '[CH2-]C=C[O+](C)C', '[O-]C=C[N+](C)=C',
               'CNC=CC=[N+](C)C', 'CNC=C[N+](C)=C', 'NC=CC=[N+](C)C', 'NC=CC#N', 'CNC=CC#N', '[O-]C=CC#N', '[O-]C=C[NH+]=C', '[O-]C=C[S+](C)C', '[O-]C=C[P+](C)(C)C',
+              # saturated onium cations with hydrogens as exits (recorded finding fix_resonance-changes-composition), amidinium oscillation
+              '[O-]C=C[NH2+]C', 'CN(C)C=C[NH3+]', 'CN(C)C=C[OH2+]', 'C[N-]C=C[NH2+]C', 'NC(=[NH2+])C1=CC=CC=C1NC', 'CN(C)C=CC=[NH2+]',
               '[CH2-]C=C[CH2+].[CH2-]C=C[CH2+]', '[O-]C=C[CH+]C=C[O-]', '[CH2+]C=C[CH-]C=C[CH2+]', 'NC=CC=[O+]C', 'CNC=C[CH2+]', '[CH2-]C=CN#N']
 
 
@@ -767,7 +769,22 @@ def check_op(ck, lim, name, smi, make, renumber=True, fixed_corpus=False):
             culprits = rule_steps(make, 'False' not in name) if family in ('standardize', 'canonicalize') else []
             obs = {'charge': after['charge'], 'hydrogens': after['h'], 'result': str(m)}
             exp = {'charge': before['charge'], 'hydrogens': before['h']}
-            if culprits:
+            if not culprits and family in ('fix_resonance', 'standardize', 'canonicalize'):
+                try:        # is it fix_resonance alone (discharge into a saturated onium cation that carries hydrogens)?
+                    x = make()
+                    x.kekule()
+                    o0 = observe(x)
+                    x.fix_resonance()
+                    o1 = observe(x)
+                    if (o0['charge'], o0['h']) != (o1['charge'], o1['h']):
+                        lim.counterexample(f'charge or H {name}', 'fix_resonance-changes-composition', f'{code}: fix_resonance changes net charge or hydrogen count of a '
+                                           'valence-valid molecule', inp, obs, exp, 'sum of charges / implicit + explicit hydrogens', replay_py=rp)
+                        culprits = None
+                except Exception:
+                    pass
+            if culprits is None:
+                pass
+            elif culprits:
                 for pat, q, h in culprits:
                     lim.counterexample(f'charge or H {name}', f'rule-changes-composition:{pat}',
                                        f'{code}: the rule {pat} changes net charge by {q} and hydrogen count by {h} on a valence-valid molecule',
@@ -790,8 +807,8 @@ def check_op(ck, lim, name, smi, make, renumber=True, fixed_corpus=False):
             ck.count('search:isomorphism undecided (budget)')
         elif not same:
             key = f'idempotent:{name}:{smi}'
-            if name in LOGGED:
-                # is it fix_resonance (the first step of standardize) that does not accept standardize's own output?
+            if name in LOGGED or family == 'fix_resonance':
+                # is it fix_resonance (the first step of standardize) that does not accept standardize's / its own output?
                 g = first.copy()
                 try:
                     g.kekule()
@@ -932,6 +949,9 @@ def search(ck, rng):
     for s in AZOLIUM:
         pool.append(('azolium', s, 'kekule'))
         pool.append(('azolium', s, 'thiele'))
+    for s in AROMATIC_RES:
+        pool.append(('aromatic resonance', s, 'kekule'))
+        pool.append(('aromatic resonance', s, 'thiele'))
     groups = doc_groups()
     for tag, s, k in pool:
         # hydrogen counts of aromatic hetero-atoms are unknown right after parsing: inputs are Kekule forms or re-aromatised ones
@@ -995,6 +1015,8 @@ AZOLIUM = ['Cc1cc[nH][nH+]1', 'Cc1cc[nH+][nH]1', 'Cc1c[nH]c[nH+]1', 'Cc1c[nH+]c[
 # metal pi-complexes spelled with coordinate bonds and a carbon radical (the left-hand sides of two metal rules), metals with and without a +1 state
 PI_COMPLEXES = ['[Fe]~1~2~3~4~[CH]5C~1=C~2C~3=C~45 |^1:1|', '[Cu]~1~2~3~4~[CH]5C~1=C~2C~3=C~45 |^1:1|', '[Ti]~1~2~3~4~[CH]5C~1=C~2C~3=C~45 |^1:1|',
                 '[Fe]~1~2~C=C~1[CH2]~2 |^1:3|', '[Cu]~1~2~C=C~1[CH2]~2 |^1:3|', '[Ni]~1~2~C=C~1[CH2]~2 |^1:3|']
+# charge-separated arenes: fix_resonance on the aromatic form rewrites aromatic bonds (recorded finding); both forms are run
+AROMATIC_RES = ['[O-]c1ccccc1[CH2+]', 'CNc1ccccc1[CH2+]', '[O-]c1ccccc1[N+]#N', 'Nc1ccccc1C=[NH2+]', '[O-]c1ccc(cc1)[CH2+]', 'CNc1ccccc1N=[NH2+]']
 TAUT_SMILES = ['CC(=O)CC(C)=O', 'OC1=NC=CC=C1', 'O=C1NC=CC=C1', 'CC(=O)C', 'C1C=CC=N1', 'NC(N)=N.Cl', 'N1C=CN=N1.Cl', 'CC(O)=CC', 'C[C@H](F)C=O', 'C/C=C/C(C)=O',
                'CC(=O)C[C@H](C)F', 'C[C@H](N)C(=O)O', 'O=C1CCCCC1', 'OC=CC=O', 'Oc1ccccc1', 'Oc1ccc(O)cc1', 'CC(=O)Nc1ccccc1', 'c1cc[nH]n1', 'c1nc[nH]n1', 'N=C(N)c1ccccc1',
                'C[NH3+].[Cl-]', 'OC(=O)CN', 'OCC(O)C=O', 'O=CC(O)C(O)CO', 'CC(=N)C', 'CC(=O)CC#N', 'O=C1C=CC(=O)C=C1', 'Cc1cc(=O)[nH]c(=O)[nH]1', 'Oc1ncnc2[nH]cnc12']
